@@ -193,7 +193,16 @@ impl ProcessState {
             };
 
             #[cfg(feature = "verif")]
-            crate::verif::point("init.txn", if must_create { "create" } else { "open" });
+            crate::verif::point(
+                "init.txn",
+                if must_create {
+                    "create immediate"
+                } else if e.runid.is_none() {
+                    "open immediate"
+                } else {
+                    "open deferred"
+                },
+            );
             if e.runid.is_none() {
                 #[cfg(feature = "verif")]
                 crate::verif::point("init.runid", "insert");
